@@ -297,7 +297,11 @@ pub fn check_expr(expr: &str, cov: &mut Cov) -> Result<bool, (String, String)> {
         if !side {
             // a claim that holds under the semantics of one of the two dialects is accepted (e.g. `1 % (1/0) <= 1 and t[k]`:
             // the left operand is nan in Lua 5.1 and 1 in Luau, so whether `t[k]` runs depends on the dialect)
-            let quiet_in_one_dialect = runs.iter().any(|r| r.finished && r.events == 0) && runs.iter().any(|r| r.finished && r.events > 0);
+            // the same expression takes different paths under the two dialects only through dialect-dependent arithmetic
+            // (`%`, `//`, string -> number): quiet in one and effectful in the other, or failing in one and effectful in
+            // the other (`if '0x10' % 5e-324 >= -1 then f() else nil >= nil`: -inf under Lua 5.1, 0 under Luau) is outside
+            // the claim
+            let quiet_in_one_dialect = (runs.iter().any(|r| r.finished && r.events == 0) || runs.iter().any(|r| !r.finished)) && runs.iter().any(|r| r.finished && r.events > 0);
             if quiet_in_one_dialect {
                 cov.hit("accepted:side-effect-claim-true-in-one-dialect");
             }
